@@ -324,6 +324,32 @@ func checkAtomic(c *core.Ctx, r *core.Report, tbl *classTable, classes []string,
 			for _, ci := range core.CallsIn(s.Fn) {
 				if core.IsCallTo(ci, rename) && ci.Common().Args[0] == s.Path {
 					okRename = true
+					// the live path is not removed or emptied before the rename replaces it (rename is the atomic step)
+					live := ci.Common().Args[1]
+					for _, rc := range core.CallsIn(s.Fn) {
+						rf := core.CalleeFunc(rc)
+						if rf == nil || rf.Pkg() == nil || rf.Pkg().Path() != "os" || len(rc.Common().Args) == 0 {
+							continue
+						}
+						switch rf.Name() {
+						case "Remove", "RemoveAll", "Truncate":
+						default:
+							continue
+						}
+						if rc.Common().Args[0] != live {
+							continue
+						}
+						before := false
+						core.WalkForward(s.Fn, rc, func(in ssa.Instruction) bool {
+							if in == ssa.Instruction(ci) {
+								before = true
+							}
+							return !before
+						})
+						if before {
+							r.Violation("ATOMIC", construct+":live-file-kept-until-the-rename", c.Pos(rc.Pos()), "the live recovery-critical file is removed (or emptied) before the temporary file is renamed onto it: a crash between the two system calls leaves no file at all, so everything that was recoverable from the previous version is lost")
+						}
+					}
 					// no write on the opened file after the rename
 					var fd ssa.Value
 					if call, ok := s.Call.(*ssa.Call); ok {
